@@ -213,6 +213,41 @@ func (d *dumper) file(fd protoreflect.FileDescriptor) []string {
 			add("method %s(%s) returns (%s) cs=%v ss=%v opts=%s comment=%q", m.FullName(), m.Input().FullName(), m.Output().FullName(), m.IsStreamingClient(), m.IsStreamingServer(), d.opts(m.Options()), comment(m))
 		}
 	}
+	// declaration order within each kind of child (fields of a message, values of an
+	// enum, nested messages, nested enums, top-level messages / enums / services, methods)
+	names := func(n int, get func(i int) protoreflect.Descriptor) string {
+		var l []string
+		for i := 0; i < n; i++ {
+			if md, ok := get(i).(protoreflect.MessageDescriptor); ok && md.IsMapEntry() {
+				continue
+			}
+			l = append(l, string(get(i).Name()))
+		}
+		return strings.Join(l, ",")
+	}
+	var order func(mds protoreflect.MessageDescriptors, eds protoreflect.EnumDescriptors, scope string)
+	order = func(mds protoreflect.MessageDescriptors, eds protoreflect.EnumDescriptors, scope string) {
+		add("order messages-of %s: %s", scope, names(mds.Len(), func(i int) protoreflect.Descriptor { return mds.Get(i) }))
+		add("order enums-of %s: %s", scope, names(eds.Len(), func(i int) protoreflect.Descriptor { return eds.Get(i) }))
+		for i := 0; i < eds.Len(); i++ {
+			e := eds.Get(i)
+			add("order values-of %s: %s", e.FullName(), names(e.Values().Len(), func(i int) protoreflect.Descriptor { return e.Values().Get(i) }))
+		}
+		for i := 0; i < mds.Len(); i++ {
+			m := mds.Get(i)
+			if m.IsMapEntry() {
+				continue
+			}
+			add("order fields-of %s: %s", m.FullName(), names(m.Fields().Len(), func(i int) protoreflect.Descriptor { return m.Fields().Get(i) }))
+			order(m.Messages(), m.Enums(), string(m.FullName()))
+		}
+	}
+	order(fd.Messages(), fd.Enums(), "file")
+	add("order services-of file: %s", names(fd.Services().Len(), func(i int) protoreflect.Descriptor { return fd.Services().Get(i) }))
+	for i := 0; i < fd.Services().Len(); i++ {
+		sv := fd.Services().Get(i)
+		add("order methods-of %s: %s", sv.FullName(), names(sv.Methods().Len(), func(i int) protoreflect.Descriptor { return sv.Methods().Get(i) }))
+	}
 	sort.Strings(out)
 	return out
 }
@@ -285,6 +320,11 @@ func checkBundle(t *vk.T, files []protoreflect.FileDescriptor, coord, label stri
 			continue
 		}
 		a, b := d.file(f), d.file(g)
+		if coord == "repo-proto" {
+			// hand-written files may interleave fields, oneofs and nested types in ways the
+			// printer regroups; declaration order is compared for compiled j5s only
+			a, b = dropOrder(a), dropOrder(b)
+		}
 		if strings.Join(a, "\n") != strings.Join(b, "\n") {
 			diff := firstDiff(a, b)
 			t.Violation("descriptor-differs|"+coord+"|"+diffKind(diff), fmt.Sprintf("re-parsing the printed text of %s gives a different descriptor:\n%s\n%s\nprinted:\n%s", f.Path(), diff, label, texts[f.Path()]), label, nil, diff)
@@ -298,6 +338,16 @@ func checkBundle(t *vk.T, files []protoreflect.FileDescriptor, coord, label stri
 		}
 	}
 	t.Sample(map[string]string{"bundle": label, "printed": firstText(texts)})
+}
+
+func dropOrder(in []string) []string {
+	var out []string
+	for _, l := range in {
+		if !strings.HasPrefix(l, "order ") {
+			out = append(out, l)
+		}
+	}
+	return out
 }
 
 func firstText(m map[string]string) string {
@@ -404,7 +454,17 @@ func run(r *vk.Runner) {
 			if c.Family == "shapes" {
 				coord = "compiled|" + c.Coord
 			}
-			checkBundle(t, files, coord, src, nil)
+			// external dependencies are not printed: their text is only needed to link the re-parsed files
+			var depTexts map[string]string
+			for _, f := range c.P.Files {
+				if f.IsDep {
+					if depTexts == nil {
+						depTexts = map[string]string{}
+					}
+					depTexts[f.OutPath()] = f.Render()
+				}
+			}
+			checkBundle(t, files, coord, src, depTexts)
 		})
 	}
 
